@@ -61,7 +61,7 @@ def encode(method, data):
     raise ValueError(method)
 
 
-def write7z(entries, method="copy", solid=True, with_attrs=True, with_crc=True, group=None):
+def write7z(entries, method="copy", solid=True, with_attrs=True, with_crc=True, group=None, encode_header=False):
     """entries: [(name, bytes | None)]: None = directory, b'' = empty file (emptyStream + emptyFile, as 7-Zip writes it).
     solid: one folder for everything; group=n: solid blocks of n files; else one folder per file."""
     streams = [(n, d) for n, d in entries if d]
@@ -108,6 +108,14 @@ def write7z(entries, method="copy", solid=True, with_attrs=True, with_crc=True, 
         h += b"\x15" + number(len(attrs)) + attrs
     h += b"\x00\x00"
     body = b"".join(packed)
+    if encode_header:
+        # EncodedHeader (what 7-Zip writes by default): the header itself is an LZMA-coded pack stream after the data; the end
+        # header is 0x17 + the StreamsInfo (PackInfo, UnpackInfo) that locates and decodes it
+        cid, props, ph = encode("lzma", bytes(h))
+        eh = b"\x17" + b"\x06" + number(len(body)) + number(1) + b"\x09" + number(len(ph)) + b"\x00"
+        eh += b"\x07\x0b" + number(1) + b"\x00" + number(1) + bytes([len(cid) | 0x20]) + cid + number(len(props)) + props
+        eh += b"\x0c" + number(len(h)) + b"\x0a\x01" + struct.pack("<I", zlib.crc32(bytes(h))) + b"\x00" + b"\x00"
+        body, h = body + ph, eh
     start = struct.pack("<QQI", len(body), len(h), zlib.crc32(bytes(h)))
     return b"7z\xbc\xaf\x27\x1c\x00\x04" + struct.pack("<I", zlib.crc32(start)) + start + body + bytes(h)
 
@@ -149,13 +157,19 @@ LAYOUTS += [("tar-gnu", "a.tar", lambda e: write_tar(e, "w", tarfile.GNU_FORMAT)
             ("7z-copy-blocks-of-2", "a.7z", lambda e: write7z(e, "copy", group=2)), ("7z-lzma2-blocks-of-2", "a.7z", lambda e: write7z(e, "lzma2", group=2)),
             ("7z-lzma-blocks-of-3", "a.7z", lambda e: write7z(e, "lzma", group=3)),
             ("7z-copy-solid-noattrs-nocrc", "a.7z", lambda e: write7z(e, "copy", True, with_attrs=False, with_crc=False)),
-            ("7z-copy-folder-per-file-noattrs", "a.7z", lambda e: write7z(e, "copy", False, with_attrs=False))]
+            ("7z-copy-folder-per-file-noattrs", "a.7z", lambda e: write7z(e, "copy", False, with_attrs=False)),
+            ("7z-lzma2-solid-encoded-header", "a.7z", lambda e: write7z(e, "lzma2", True, encode_header=True)),
+            ("7z-copy-folder-per-file-encoded-header", "a.7z", lambda e: write7z(e, "copy", False, encode_header=True)),
+            ("7z-lzma-blocks-of-2-encoded-header", "a.7z", lambda e: write7z(e, "lzma", group=2, encode_header=True))]
 
 DOCS = [("a.txt", b"alpha alpha\nline two"), ("sub/b.md", b"# bravo\n\ntext"), ("c.csv", b"x,y\n1,2\n3,4\n"), ("sub/deep/d.json", b'{"k": [1, 2, 3]}'),
         ("e.html", b"<html><body><p>echo</p></body></html>"), ("f.txt", b"foxtrot " * 40)]
 NOISE = [("dir1", None), ("empty.txt", b""), (".hidden.txt", b"hidden"), ("prog.exe", b"MZ\x00\x00"), ("inner.zip", b"PK\x05\x06" + b"\x00" * 18),
          ("sub", None)]
 CORRUPT = ("broken.docx", b"this is not a docx file at all")
+
+
+BIG_SET_LAYOUTS = ("zip-deflated", "tar.gz", "7z-copy-solid", "7z-copy-folder-per-file", "7z-lzma2-blocks-of-2", "7z-lzma2-solid-encoded-header")
 
 
 def member_sets():
@@ -269,6 +283,8 @@ def matrix(layout_filter=None, sets=None, skip_recorded=True):
             if layout_filter and not layout_filter(label):
                 continue
             if skip_recorded and recorded(label, entries):
+                continue
+            if len(entries) > 50 and label not in BIG_SET_LAYOUTS:        # the 130-entry set: one layout per container / coder family
                 continue
             data = build(entries)
             got, err = run_archive(data, aname)
